@@ -478,8 +478,19 @@ def replay_once(exe, prop, path, env_extra=None, timeout=600):
     env.setdefault('TSAN_OPTIONS', 'halt_on_error=0:report_signal_unsafe=0')
     if env_extra:
         env.update(env_extra)
+    cmd = [exe, '--prop', prop, '--replay', path]
     try:
-        r = subprocess.run([exe, '--prop', prop, '--replay', path], stdout=subprocess.PIPE, stderr=subprocess.STDOUT,
+        kv0 = read_kv(path)
+    except Exception:
+        kv0 = {}
+    if kv0.get('sub') == 'setup-crash':
+        # the process died outside a generated case: re-run that worker's share of the stage plan (set-up included)
+        out = os.path.join(BUILD, 'run', 'setup-replay-%d.json' % os.getpid())
+        os.makedirs(os.path.dirname(out), exist_ok=True)
+        cmd = [exe, '--prop', prop, '--out', out, '--worker', kv0.get('worker', '0'), '--nworkers', str(JOBS), '--seed', '1', '--tier', 'quick',
+               '--plan', kv0.get('plan', ''), '--replay-dir', os.path.join(VERIF, 'replay')]
+    try:
+        r = subprocess.run(cmd, stdout=subprocess.PIPE, stderr=subprocess.STDOUT,
                            text=True, env=env, cwd=VERIF, timeout=timeout, errors='replace')
         return r.returncode, r.stdout[-4000:]
     except subprocess.TimeoutExpired:
@@ -666,8 +677,12 @@ def run_check(prop, tier, seed):
                     shutil.copy(cur, dst)
                     fails.append({'replay': dst, 'why': desc + ' (case in flight)', 'crash': True})
                 else:
+                    # died outside any generated case (harness set-up, e.g. a sanitizer report while the oracle objects are built):
+                    # the replay file records the stage plan; replaying it re-runs worker 0 of that plan
                     notes.append(desc + ' without case in flight; log tail: ' + log[-1500:])
-                    fails.append({'replay': '', 'why': desc + '; log: ' + log[-600:], 'crash': True})
+                    dst = os.path.join(VERIF, 'replay', '%s-setup-crash-%d-w%d.txt' % (prop, seed, i))
+                    open(dst, 'w').write('sub=setup-crash\nstage=%s\nplan=%s\nworker=%d\nlog=%s\n' % (stage['name'], plan, i, log[-3000:].replace('\n', ' | ')))
+                    fails.append({'replay': dst, 'why': desc + ' outside a generated case (harness set-up); log: ' + log[-600:], 'crash': True, 'setup': True})
             for f in fails:
                 if len(violations) + len(known_hits) >= 3:
                     notes.append('further failure not replayed (3 already confirmed): %s' % f.get('why', '')[:300])
